@@ -90,7 +90,7 @@ namespace DFS
 	   it != locations_.rend();
 	   ++it)
 	{
-	  if (next_sector < it->start_sector())
+	  if (next_sector <= it->start_sector())
 	    {
 	      std::ostringstream os;
 	      os << "Opus DDOS volume " << label << " has starting sector "
